@@ -217,10 +217,56 @@ pub fn run(seed: u64, bases: &str, outdir: &str, combos: u64, list_path: &str) {
             kinds.dedup();
             emit(format!("combo:{}", kinds.join("+")), &img);
         }
+        // the same image with a U+0000 as the last character of one entry's name (legal: only / \ : !
+        // are forbidden), when both modes still accept it identically: on it, the missing terminator is
+        // the only thing a "is there a zero somewhere up to the terminator slot" check could hang on
+        if let Some(b2) = nul_name_variant(&b) {
+            let p2 = open_dump(b2.clone(), false);
+            if p2.starts_with("ok") && p2 == open_dump(b2.clone(), true) {
+                for d in deviations(&b2).iter().filter(|d| d.kind == "unterminatedName") {
+                    let p = open_dump(d.image.clone(), false);
+                    let s = open_dump(d.image.clone(), true);
+                    *hist.entry("unterminatedName(nul inside)".to_string()).or_insert(0) += 1;
+                    let path = format!("{}/d{}.cfb", outdir, k);
+                    k += 1;
+                    std::fs::write(&path, &d.image).unwrap();
+                    list.push_str(&path);
+                    list.push('\n');
+                    if p != p2 {
+                        println!("ORACLE deviation unterminatedName (name with U+0000 inside) on {} (kept as {}): permissive open gave {} instead of the undamaged content", f, path, &p[..p.len().min(120)]);
+                    }
+                    if s != "err invalidData" {
+                        println!("ORACLE deviation unterminatedName (name with U+0000 inside) on {} (kept as {}): strict open gave {} instead of err invalidData", f, path, &s[..s.len().min(120)]);
+                    }
+                }
+            }
+        }
     }
     std::fs::write(list_path, list).unwrap();
     for (k, v) in hist.iter().filter(|(k, _)| !k.starts_with("combo")) {
         println!("HIST dev:{} {}", k, v);
     }
     println!("HIST dev:combos {}", hist.iter().filter(|(k, _)| k.starts_with("combo")).map(|(_, v)| *v).sum::<u64>());
+}
+
+
+/// `b` with the last character of the first suitable entry's name replaced by U+0000
+fn nul_name_variant(b: &[u8]) -> Option<Vec<u8>> {
+    let l = crate::mutate::layout(b);
+    let per = l.s / 128;
+    for i in 1..l.dir_sectors.len() * per {
+        let o = (l.dir_sectors[i / per] + 1) * l.s + (i % per) * 128;
+        if o + 128 > b.len() {
+            continue;
+        }
+        let t = b[o + 66];
+        let name_len = u16::from_le_bytes([b[o + 64], b[o + 65]]) as usize;
+        if (t == 1 || t == 2) && name_len >= 6 && name_len < 64 {
+            let mut v = b.to_vec();
+            v[o + name_len - 4] = 0;
+            v[o + name_len - 3] = 0;
+            return Some(v);
+        }
+    }
+    None
 }
